@@ -143,6 +143,20 @@ static void run_type(uint64_t seed)
             c[i] = Gen<T>::get(rng, mk, cc[i]);
             rr[i] = (T)((int)(rng.next() % 9) - 4) + ((rng.next() & 1) ? (T)0.5 : (T)0);
         }
+        if (it % 16 == 7 || it % 16 == 11)
+        { // whole-batch classes (drive all()/any() shortcuts): every lane on the real axis (both signs, +-0 imaginary part),
+          // or every lane on the imaginary axis
+            const bool real_axis = it % 16 == 7;
+            for (size_t i = 0; i < N; ++i)
+            {
+                T m = (T)std::ldexp(1.0 + (double)(rng.next() % 1000) / 1000.0, (int)(rng.next() % 5) - 2);
+                if (rng.next() & 1)
+                    m = -m;
+                T z0 = (rng.next() & 1) ? (T)0.0 : (T)-0.0;
+                a[i] = real_axis ? C(m, z0) : C(z0, m);
+                ca[i] = real_axis ? (m < 0 ? 4 : 0) : (m < 0 ? 6 : 2);
+            }
+        }
         if (it == 1)
         { // fixed probes of the open findings F24 / F25a / F25b, so that they are observed whatever the seed
             a[0] = C((T)-4, (T)-0.0);
